@@ -455,10 +455,9 @@ qb_log_target_format(int32_t target,
 
 	if (output_buffer_idx > 0 &&
 	    output_buffer[output_buffer_idx - 1] == '\n') {
-		output_buffer[output_buffer_idx - 1] = '\0';
-	} else {
-		output_buffer[output_buffer_idx] = '\0';
+		output_buffer_idx--;
 	}
+	output_buffer[output_buffer_idx] = '\0';
 
 	/* Indicate truncation */
 	if (t->ellipsis && output_buffer_idx >= t->max_line_length-1) {
